@@ -1,11 +1,554 @@
-//! C17 — not built yet.
+//! C17 — Levenshtein automaton.  The DFA inside `fst::automaton::Levenshtein` is private; it is
+//! observed completely through the public `Automaton` impl, whose state is `Option<usize>`:
+//! `accept(&Some(i), b)` is `states[i].next[b]` and panics exactly when `i >= states.len()`,
+//! `is_match(&Some(i))` is `states[i].is_match`.  The canonical dump of that table (state numbers
+//! included) is compared with the dump of the DFA built by the Coq model (M); verdicts are compared
+//! with the Coq edit-distance specification (S).
 use crate::common::*;
+use fst::automaton::{Automaton, Levenshtein, LevenshteinError};
+use fst::{IntoStreamer, Streamer};
+use std::panic;
+
 pub struct P;
-impl Prop for P {
-    fn generate(&self, _tier: Tier, _rng: &mut Rng, _stats: &mut Stats) -> Vec<String> {
-        vec![]
+
+/// a, é, ê (share C3), ☃, ☄ (share E2 98), 😀, 😁 (share F0 9F 98), 𝄞 (shares F0 only)
+const ALPHA8: [char; 8] = ['a', 'é', 'ê', '☃', '☄', '😀', '😁', '𝄞'];
+const BOUNDARY: [u32; 20] = [
+    0x00, 0x41, 0x7F, 0x80, 0x7FF, 0x800, 0xFFF, 0x1000, 0xCFFF, 0xD000, 0xD7FF, 0xE000, 0xFFFF, 0x10000, 0x3FFFF, 0x40000,
+    0xFFFFF, 0x100000, 0x10FFFF, 0xE9,
+];
+const DEFAULT_LIMIT: usize = 10_000;
+
+fn hexs(s: &str) -> String {
+    hex(s.as_bytes())
+}
+fn chars_hex(cs: &[char]) -> String {
+    cs.iter().map(|c| hexs(&c.to_string())).collect::<Vec<_>>().join(",")
+}
+
+/// Everything observable about the private DFA.
+pub struct Observed {
+    pub is_match: Vec<bool>,
+    pub next: Vec<[Option<usize>; 256]>,
+    pub x: String,
+}
+
+pub fn observe(lev: &Levenshtein) -> Observed {
+    let mut o = Observed { is_match: vec![], next: vec![], x: "ok".to_string() };
+    if lev.start() != Some(0) {
+        o.x = format!("start() = {:?}", lev.start());
     }
-    fn execute(&self, _case: &str) -> String {
-        String::new()
+    if lev.can_match(&None) || lev.is_match(&None) || lev.accept(&None, 0).is_some() {
+        o.x = "the None state is not dead".to_string();
+    }
+    let mut i = 0usize;
+    loop {
+        // states[i] panics (index out of bounds) exactly when i == states.len()
+        let r = panic::catch_unwind(panic::AssertUnwindSafe(|| {
+            let mut t = [None; 256];
+            for b in 0..256usize {
+                t[b] = lev.accept(&Some(i), b as u8);
+            }
+            (t, lev.is_match(&Some(i)))
+        }));
+        match r {
+            Ok((t, m)) => {
+                if !lev.can_match(&Some(i)) {
+                    o.x = format!("can_match(Some({})) is false", i);
+                }
+                o.next.push(t);
+                o.is_match.push(m);
+            }
+            Err(_) => break,
+        }
+        i += 1;
+        if i > 5_000_000 {
+            o.x = "state probing did not stop".to_string();
+            break;
+        }
+    }
+    // every target must be an existing state
+    let n = o.next.len();
+    for s in 0..n {
+        for b in 0..256 {
+            if let Some(t) = o.next[s][b] {
+                if t >= n {
+                    o.x = format!("state {} byte {:02x} leads to {} >= {} states", s, b, t, n);
+                }
+            }
+        }
+    }
+    o
+}
+
+pub fn dump(o: &Observed) -> String {
+    let mut s = String::new();
+    for i in 0..o.next.len() {
+        if i > 0 {
+            s.push(';');
+        }
+        s.push(if o.is_match[i] { '1' } else { '0' });
+        s.push('|');
+        let t = &o.next[i];
+        let mut first = true;
+        let mut b = 0usize;
+        while b < 256 {
+            if let Some(tg) = t[b] {
+                let lo = b;
+                while b + 1 < 256 && t[b + 1] == Some(tg) {
+                    b += 1;
+                }
+                if !first {
+                    s.push(',');
+                }
+                first = false;
+                s.push_str(&format!("{:02x}-{:02x}>{}", lo, b, tg));
+            }
+            b += 1;
+        }
+    }
+    s
+}
+
+pub fn fnv64(s: &str) -> String {
+    let mut h: u64 = 0xcbf29ce484222325;
+    for &c in s.as_bytes() {
+        h = (h ^ c as u64).wrapping_mul(0x100000001b3);
+    }
+    format!("{:016x}", h)
+}
+
+fn digest(o: &Observed) -> String {
+    format!("n={} fnv={}", o.next.len(), fnv64(&dump(o)))
+}
+
+fn too_many(e: &LevenshteinError) -> String {
+    match e {
+        LevenshteinError::TooManyStates(l) => format!("TooManyStates({})", l),
+    }
+}
+
+/// all strings of <= maxlen characters over alpha: by length, then lexicographic in alphabet order
+fn all_keys(alpha: &[char], maxlen: usize) -> Vec<String> {
+    let mut out = vec![];
+    let mut level = vec![String::new()];
+    out.extend(level.iter().cloned());
+    for _ in 0..maxlen {
+        let mut nx = Vec::with_capacity(level.len() * alpha.len());
+        for &c in alpha {
+            for k in &level {
+                let mut t = String::new();
+                t.push(c);
+                t.push_str(k);
+                nx.push(t);
+            }
+        }
+        out.extend(nx.iter().cloned());
+        level = nx;
+    }
+    out
+}
+
+fn run(lev: &Levenshtein, k: &[u8]) -> bool {
+    let mut st = lev.start();
+    for &b in k {
+        st = lev.accept(&st, b);
+    }
+    lev.is_match(&st)
+}
+
+fn random_char(rng: &mut Rng) -> char {
+    match rng.below(10) {
+        0..=2 => *rng.pick(&ALPHA8),
+        3..=4 => (b'a' + rng.below(4) as u8) as char,
+        5..=6 => std::char::from_u32(*rng.pick(&BOUNDARY)).unwrap(),
+        7 => {
+            // neighbours sharing all but the last byte with a boundary / alphabet character
+            let base = if rng.chance(1, 2) { *rng.pick(&BOUNDARY) } else { *rng.pick(&ALPHA8) as u32 };
+            let c = (base & !0x3F) | rng.below(64) as u32;
+            std::char::from_u32(c).unwrap_or('é')
+        }
+        _ => loop {
+            let hi = match rng.below(4) {
+                0 => 0x80,
+                1 => 0x800,
+                2 => 0x10000,
+                _ => 0x110000,
+            };
+            if let Some(c) = std::char::from_u32(rng.below(hi) as u32) {
+                break c;
+            }
+        },
+    }
+}
+
+fn random_string(rng: &mut Rng, alpha: &[char], lo: usize, hi: usize) -> String {
+    let n = rng.range(lo, hi);
+    (0..n).map(|_| *rng.pick(alpha)).collect()
+}
+
+fn state_count(q: &str, d: u32) -> Option<usize> {
+    Levenshtein::new_with_limit(q, d, usize::MAX).ok().map(|l| observe(&l).next.len())
+}
+
+impl Prop for P {
+    fn generate(&self, tier: Tier, rng: &mut Rng, stats: &mut Stats) -> Vec<String> {
+        let mut cases = vec![];
+        // the historical failing inputs run first.  main.rs loads corpus/C17.txt relative to the output
+        // directory; when that did not find the file, take it relative to the executable / the cwd.
+        if !stats.counters.contains_key("corpus_cases") {
+            let mut roots = vec![std::path::PathBuf::from(".")];
+            if let Ok(exe) = std::env::current_exe() {
+                if let Some(r) = exe.ancestors().nth(4) {
+                    roots.push(r.to_path_buf());
+                }
+            }
+            for r in roots {
+                if let Ok(txt) = std::fs::read_to_string(r.join("corpus").join("C17.txt")) {
+                    for l in txt.lines() {
+                        if !l.is_empty() && !l.starts_with('#') {
+                            cases.push(l.to_string());
+                            stats.bump("corpus_cases");
+                        }
+                    }
+                    break;
+                }
+            }
+        }
+        let a8 = chars_hex(&ALPHA8);
+        // ---- exhaustive small scope: every (q, d, k) over the 8-character alphabet; one line per (q, d)
+        let (qmax, kmax) = match tier {
+            Tier::Quick | Tier::Wide => (3, 3),
+            Tier::Thorough => (3, 4),
+        };
+        let queries = all_keys(&ALPHA8, qmax);
+        let nkeys3 = all_keys(&ALPHA8, 3).len() as u64;
+        let nkeys4 = all_keys(&ALPHA8, 4).len() as u64;
+        for q in &queries {
+            // quick: keys of <= 4 characters for |q| <= 2, of <= 3 characters for |q| = 3
+            let kl = if kmax == 4 || q.chars().count() <= 2 { 4 } else { 3 };
+            for d in 0..=2 {
+                cases.push(format!("matchall {} {} {} {}", hexs(q), d, kl, a8));
+                stats.bump("matchall_exhaustive_lines");
+                stats.add("matchall_exhaustive_qdk_triples", if kl == 4 { nkeys4 } else { nkeys3 });
+            }
+        }
+        if tier == Tier::Thorough {
+            // |q| = 4 against all keys of <= 3 characters, and a sample of |q| = 4 against keys of <= 4
+            for q in all_keys(&ALPHA8, 4).iter().filter(|q| q.chars().count() == 4) {
+                for d in 0..=2 {
+                    let kl = if rng.chance(1, 40) { 4 } else { 3 };
+                    cases.push(format!("matchall {} {} {} {}", hexs(q), d, kl, a8));
+                    stats.bump("matchall_q4_lines");
+                }
+            }
+        }
+        // ---- the full DFA table, written out, for the smallest queries
+        for q in all_keys(&ALPHA8, 1) {
+            for d in 0..=2 {
+                cases.push(format!("dfadump {} {} {}", hexs(&q), d, DEFAULT_LIMIT));
+                stats.bump("dfadump_lines");
+            }
+        }
+        // ---- state limits from 1 upward and around the actual number of states
+        let nlim = match tier {
+            Tier::Quick => 120,
+            Tier::Wide => 200,
+            Tier::Thorough => 400,
+        };
+        for j in 0..nlim {
+            let q = if j < 12 { queries[j * 7 % queries.len()].clone() } else { random_string(rng, &ALPHA8, 0, 3) };
+            let d = rng.below(3) as u32;
+            let n = state_count(&q, d).unwrap_or(1);
+            let mut lims: Vec<u64> = vec![0, 1, 2, 3, 18, 19, 20, n as u64 - 1, n as u64, n as u64 + 1, u64::MAX];
+            for _ in 0..3 {
+                lims.push(rng.below(n as u64 + 4));
+            }
+            lims.sort();
+            lims.dedup();
+            for l in lims {
+                cases.push(format!("dfa {} {} {}", hexs(&q), d, l));
+                stats.bump(if (l as u128) < n as u128 { "limit_below_state_count" } else { "limit_at_or_above_state_count" });
+            }
+        }
+        // ---- random longer queries over mixed alphabets (ASCII, boundary scalars, neighbours), keys over the
+        //      query's characters plus strangers
+        let nrand = match tier {
+            Tier::Quick => 600,
+            Tier::Wide => 1200,
+            Tier::Thorough => 4000,
+        };
+        for _ in 0..nrand {
+            let na = rng.range(2, 6);
+            let alpha: Vec<char> = {
+                let mut a: Vec<char> = vec![];
+                while a.len() < na {
+                    let c = random_char(rng);
+                    if !a.contains(&c) {
+                        a.push(c);
+                    }
+                }
+                a
+            };
+            let nq = rng.range(1, na);
+            let q = random_string(rng, &alpha[..nq], 1, 6);
+            let d = rng.below(3) as u32;
+            match state_count(&q, d) {
+                Some(n) if n <= DEFAULT_LIMIT => {
+                    let maxlen = if alpha.len() <= 3 { 4 } else { 3 };
+                    cases.push(format!("matchall {} {} {} {}", hexs(&q), d, maxlen, chars_hex(&alpha)));
+                    stats.bump("matchall_random_lines");
+                    // long keys near the query: mutate q
+                    for _ in 0..4 {
+                        let mut k: Vec<char> = q.chars().collect();
+                        for _ in 0..rng.range(0, 3) {
+                            let pos = rng.range(0, k.len());
+                            match rng.below(3) {
+                                0 => k.insert(pos, *rng.pick(&alpha)),
+                                1 => {
+                                    if pos < k.len() {
+                                        k.remove(pos);
+                                    }
+                                }
+                                _ => {
+                                    if pos < k.len() {
+                                        k[pos] = *rng.pick(&alpha);
+                                    }
+                                }
+                            }
+                        }
+                        let ks: String = k.into_iter().collect();
+                        cases.push(format!("match {} {} {}", hexs(&q), d, hexs(&ks)));
+                        stats.bump("match_mutated_key");
+                    }
+                }
+                _ => {
+                    // too big for the default limit: both sides must say so
+                    cases.push(format!("match {} {} {}", hexs(&q), d, hexs(&q)));
+                    stats.bump("match_over_default_limit");
+                }
+            }
+        }
+        // ---- single keys with the per-byte state trace, including byte strings that are not UTF-8
+        let ntrace = match tier {
+            Tier::Quick => 1500,
+            Tier::Wide => 3000,
+            Tier::Thorough => 8000,
+        };
+        for _ in 0..ntrace {
+            let q = random_string(rng, &ALPHA8, 0, 3);
+            let d = rng.below(3) as u32;
+            let mut k = random_string(rng, &ALPHA8, 0, 5).into_bytes();
+            let malformed = rng.chance(1, 3);
+            if malformed && !k.is_empty() {
+                match rng.below(4) {
+                    0 => {
+                        let l = rng.range(0, k.len() - 1);
+                        k.truncate(l + 1);
+                        if rng.chance(1, 2) {
+                            k.pop();
+                        }
+                    }
+                    1 => {
+                        let p = rng.range(0, k.len() - 1);
+                        k[p] = rng.below(256) as u8;
+                    }
+                    2 => {
+                        let p = rng.range(0, k.len());
+                        k.insert(p, *rng.pick(&[0x80u8, 0xBF, 0xC0, 0xC1, 0xF5, 0xFF, 0xED, 0xA0]));
+                    }
+                    _ => {
+                        let p = rng.range(0, k.len() - 1);
+                        k.remove(p);
+                    }
+                }
+            }
+            stats.bump(if std::str::from_utf8(&k).is_ok() { "match_valid_key" } else { "match_invalid_utf8_key" });
+            cases.push(format!("match {} {} {}", hexs(&q), d, hex(&k)));
+        }
+        // ---- searching real sets and maps
+        let nsearch = match tier {
+            Tier::Quick => 600,
+            Tier::Wide => 1500,
+            Tier::Thorough => 4000,
+        };
+        for j in 0..nsearch {
+            let alpha: Vec<char> = if rng.chance(1, 2) { ALPHA8.to_vec() } else { (0..5).map(|_| random_char(rng)).collect() };
+            let q = random_string(rng, &alpha, 0, 4);
+            let d = rng.below(3) as u32;
+            if state_count(&q, d).map(|n| n > DEFAULT_LIMIT).unwrap_or(true) {
+                continue;
+            }
+            let nk = rng.range(0, 40);
+            let mut keys: Vec<Vec<u8>> = (0..nk).map(|_| random_string(rng, &alpha, 0, 5).into_bytes()).collect();
+            keys.push(q.clone().into_bytes());
+            keys.sort();
+            keys.dedup();
+            let kind = if j % 2 == 0 { "set" } else { "map" };
+            cases.push(format!("search {} {} {} {}", kind, hexs(&q), d, keys.iter().map(|k| hex(k)).collect::<Vec<_>>().join(",")));
+            stats.bump(if kind == "set" { "search_set" } else { "search_map" });
+        }
+        cases
+    }
+
+    fn nontrivial(&self, case: &str) -> bool {
+        // the query is non-empty and contains at least one multi-byte character
+        let mut it = case.split(' ');
+        let kind = it.next().unwrap_or("");
+        let q = if kind == "search" { it.nth(1) } else { it.next() };
+        match q {
+            Some(q) => unhex(q).iter().any(|&b| b >= 0x80),
+            None => false,
+        }
+    }
+
+    fn execute(&self, case: &str) -> String {
+        let t: Vec<&str> = case.split(' ').collect();
+        let qs = |h: &str| String::from_utf8(unhex(h)).expect("query is UTF-8");
+        match t[0] {
+            "dfa" | "dfadump" => {
+                let q = qs(t[1]);
+                let d: u32 = t[2].parse().unwrap();
+                let lim: u64 = t[3].parse().unwrap();
+                match Levenshtein::new_with_limit(&q, d, lim as usize) {
+                    Ok(lev) => {
+                        let o = observe(&lev);
+                        format!("S:built\tM:{}\tX:{}", if t[0] == "dfa" { digest(&o) } else { dump(&o) }, o.x)
+                    }
+                    Err(e) => format!("S:toomany\tM:{}", too_many(&e)),
+                }
+            }
+            "match" => {
+                let q = qs(t[1]);
+                let d: u32 = t[2].parse().unwrap();
+                let k = unhex(t[3]);
+                match Levenshtein::new(&q, d) {
+                    Ok(lev) => {
+                        let mut st = lev.start();
+                        let mut tr = vec![];
+                        for &b in &k {
+                            st = lev.accept(&st, b);
+                            tr.push(match st {
+                                Some(i) => i.to_string(),
+                                None => "-".to_string(),
+                            });
+                        }
+                        let v = lev.is_match(&st);
+                        let s = if std::str::from_utf8(&k).is_ok() { if v { "1" } else { "0" } } else { "invalid" };
+                        format!("S:{}\tM:v={};{}", s, v as u8, tr.join(","))
+                    }
+                    Err(e) => format!("S:toomany\tM:{}", too_many(&e)),
+                }
+            }
+            "matchall" => {
+                let q = qs(t[1]);
+                let d: u32 = t[2].parse().unwrap();
+                let maxlen: usize = t[3].parse().unwrap();
+                let alpha: Vec<char> = t[4].split(',').map(|h| qs(h).chars().next().unwrap()).collect();
+                match Levenshtein::new(&q, d) {
+                    Ok(lev) => {
+                        let o = observe(&lev);
+                        let bits: String = all_keys(&alpha, maxlen).iter().map(|k| if run(&lev, k.as_bytes()) { '1' } else { '0' }).collect();
+                        format!("S:{}\tM:{};{}\tX:{}", bits, digest(&o), bits, o.x)
+                    }
+                    Err(e) => format!("S:toomany\tM:{}", too_many(&e)),
+                }
+            }
+            "search" => {
+                let q = qs(t[2]);
+                let d: u32 = t[3].parse().unwrap();
+                let keys: Vec<Vec<u8>> = if t.len() > 4 && !t[4].is_empty() { t[4].split(',').map(unhex).collect() } else { vec![] };
+                match Levenshtein::new(&q, d) {
+                    Ok(lev) => {
+                        let mut got = vec![];
+                        if t[1] == "set" {
+                            let mut b = fst::SetBuilder::memory();
+                            for k in &keys {
+                                b.insert(k).unwrap();
+                            }
+                            let set = fst::Set::new(b.into_inner().unwrap()).unwrap();
+                            let mut s = set.search(&lev).into_stream();
+                            while let Some(k) = s.next() {
+                                got.push(hex(k));
+                            }
+                        } else {
+                            let mut b = fst::MapBuilder::memory();
+                            for (i, k) in keys.iter().enumerate() {
+                                b.insert(k, i as u64).unwrap();
+                            }
+                            let map = fst::Map::new(b.into_inner().unwrap()).unwrap();
+                            let mut s = map.search(&lev).into_stream();
+                            while let Some((k, v)) = s.next() {
+                                got.push(format!("{}={}", hex(k), v));
+                            }
+                        }
+                        let r = got.join(",");
+                        format!("S:{}\tM:{}", r, r)
+                    }
+                    Err(e) => format!("S:toomany\tM:{}", too_many(&e)),
+                }
+            }
+            _ => "S:BADCASE\tM:BADCASE".to_string(),
+        }
+    }
+
+    fn extras(&self, _tier: Tier, rng: &mut Rng, _stats: &mut Stats) -> Vec<(String, bool, String)> {
+        // the model of the crate utf8-ranges: the two shapes of Utf8Sequences::new used by levenshtein.rs
+        use utf8_ranges::Utf8Sequences;
+        let want_all: Vec<Vec<(u8, u8)>> = vec![
+            vec![(0x00, 0x7F)],
+            vec![(0xC2, 0xDF), (0x80, 0xBF)],
+            vec![(0xE0, 0xE0), (0xA0, 0xBF), (0x80, 0xBF)],
+            vec![(0xE1, 0xEC), (0x80, 0xBF), (0x80, 0xBF)],
+            vec![(0xED, 0xED), (0x80, 0x9F), (0x80, 0xBF)],
+            vec![(0xEE, 0xEF), (0x80, 0xBF), (0x80, 0xBF)],
+            vec![(0xF0, 0xF0), (0x90, 0xBF), (0x80, 0xBF), (0x80, 0xBF)],
+            vec![(0xF1, 0xF3), (0x80, 0xBF), (0x80, 0xBF), (0x80, 0xBF)],
+            vec![(0xF4, 0xF4), (0x80, 0x8F), (0x80, 0xBF), (0x80, 0xBF)],
+        ];
+        let shape = |lo: char, hi: char| -> Vec<Vec<(u8, u8)>> {
+            Utf8Sequences::new(lo, hi).map(|s| s.as_slice().iter().map(|r| (r.start, r.end)).collect()).collect()
+        };
+        let mut out = vec![];
+        let got_all = shape('\0', '\u{10FFFF}');
+        out.push((
+            "utf8_ranges_full_range_is_the_modelled_list".to_string(),
+            got_all == want_all,
+            format!("{} sequences from Utf8Sequences::new('\\0','\\u{{10FFFF}}')", got_all.len()),
+        ));
+        let mut bad = None;
+        let mut n = 0u64;
+        let mut check = |c: char| {
+            let mut buf = [0u8; 4];
+            let enc: Vec<(u8, u8)> = c.encode_utf8(&mut buf).as_bytes().iter().map(|&b| (b, b)).collect();
+            if shape(c, c) != vec![enc] {
+                bad = Some(c as u32);
+            }
+            n += 1;
+        };
+        for &c in ALPHA8.iter() {
+            check(c);
+        }
+        for &b in BOUNDARY.iter() {
+            check(std::char::from_u32(b).unwrap());
+        }
+        // every scalar value up to U+FFFF in steps, the plane boundaries, and random ones
+        for u in (0..0x110000u32).step_by(61) {
+            if let Some(c) = std::char::from_u32(u) {
+                check(c);
+            }
+        }
+        for _ in 0..20000 {
+            check(random_char(rng));
+        }
+        out.push((
+            "utf8_ranges_single_char_is_its_encoding".to_string(),
+            bad.is_none(),
+            match bad {
+                None => format!("{} scalar values checked", n),
+                Some(c) => format!("Utf8Sequences::new(c,c) differs from the UTF-8 encoding for U+{:04X}", c),
+            },
+        ));
+        out
     }
 }
